@@ -49,7 +49,10 @@ class FileSystemArtifactStore(SerializedArtifactStore):
         return path
 
     def _get_glob(self, node_id: NodeId) -> t.List[Path]:
-        return list(Path(self._ensure_dir()).glob(f'{node_id}.*'))
+        # Exact file names only: a glob pattern would alias 'x' with 'x.y' and interpret metacharacters of the id
+        directory = self._ensure_dir()
+        paths = [Path(directory / f'{node_id}.{fmt.value}') for fmt in DataFormat]
+        return [path for path in paths if path.is_file()]
 
     @dont_use_for_prod
     async def save(self, node_id: NodeId, data: NodeResultT, fmt: DataFormat = DataFormat.PICKLE) -> None:
